@@ -63,6 +63,9 @@ void vh_inconc(const char *fmt, ...) __attribute__((format(printf, 1, 2)));
 void vh_nontrivial(const char *sigfmt, ...) __attribute__((format(printf, 1, 2)));
 void vh_sample(const char *fmt, ...) __attribute__((format(printf, 1, 2)));
 void vh_count(const char *name, long n);
+/* route the library's log messages (formatted by err_msg) into a sink that reads every byte of them and counts them, at the given
+ * minimum level (ERR_WARN is the library's default): the formatting of messages about hostile input is part of what is monitored */
+void vh_log_sink(int level);
 void vh_max(const char *name, long v);  /* counter keeps the maximum */
 void vh_note(const char *fmt, ...) __attribute__((format(printf, 1, 2))); /* stderr, replay mode only */
 /* marks the API entry point being executed, so a crash can be attributed */
